@@ -147,7 +147,7 @@ def run(ctx):
     # __init__ does not pin a private type for attached symbols: `self.type = given or self.type` goes through the setter
     init = T.function('__init__')
     src = ast.unparse(init.node)
-    ok = "self.type = kwargs.pop('type', None) or self.type" in src and src.index('self.scope =') < src.index('self.type =')
+    ok = X.has(src, "self.type = kwargs.pop('type', None) or self.type") and src.index('self.scope =') < src.index('self.type =')
     (ctx.judge('R2', '__init__ sets scope before type') if ok else
      ctx.violation('R2', 'TypedSymbol.__init__', init.where, 'constructor assigns the type before the scope / bypasses the setter'))
     # ---- R3
